@@ -7,7 +7,7 @@ from .common import (exec_case, rng_for, same_outcome, mismatch_kind, fmt_outcom
                      I64_BOUNDARY, U64_BOUNDARY)
 
 RULE = ("a op b programs over int / uint operand pairs (operators + - * / %, unary minus), written as "
-        "literals and as context variables: exhaustive boundary-set pairs, uniformly and log-uniformly "
+        "literals (decimal and hexadecimal) and as context variables: exhaustive boundary-set pairs, uniformly and log-uniformly "
         "random pairs, and a cross-type sample; a case is non-trivial when an operand lies outside "
         "[-2^31, 2^31] or the operands are of different kinds; distinct = distinct (form, op, operands)")
 ASSUMPTIONS = ["oracle: Python arbitrary-precision integers; error classes from ExecutionError variants"]
@@ -19,7 +19,7 @@ def units(tier, seed):
     us = []
     for kind in ('i', 'u'):
         for op in OPS:
-            for form in ('lit', 'var'):
+            for form in ('lit', 'var', 'hex'):
                 us.append(('pairs', kind, op, form))
     us.append(('neg',))
     for k in ('i', 'u'):
@@ -40,7 +40,16 @@ def expected(op, a, b):
         return ('err', e.cls)
 
 
+def hexlit(v):
+    """The same number as a hexadecimal literal (CEL's other spelling of int / uint constants)."""
+    if v[0] == 'u':
+        return "0x%xu" % v[1]
+    return ("-0x%x" % -v[1]) if v[1] < 0 else ("0x%X" % v[1])
+
+
 def build(cid, op, a, b, form):
+    if form == 'hex':
+        return exec_case(cid, "%s %s %s" % (hexlit(a), op, hexlit(b)))
     if form == 'lit':
         return exec_case(cid, "%s %s %s" % (render_literal(a), op, render_literal(b)))
     return exec_case(cid, "a %s b" % op, [("a", a), ("b", b)])
